@@ -72,7 +72,20 @@ class YieldIO(io.StringIO):
         return super().write(s)
 
 
-def base_tree(typed=False):
+def base_tree(typed=False, big=0):
+    t = _base_tree(typed)
+    if big:
+        # more nodes than any "chunk" a snapshot operation might process at a time
+        f = t.add("fill", kind="k0") if typed else t.add("fill")
+        for i in range(big):
+            if typed:
+                f.add(f"f{i}", kind="k1")
+            else:
+                f.add(f"f{i}")
+    return t
+
+
+def _base_tree(typed=False):
     if typed:
         t = SchedTypedTree("T")
         a = t.add("base1", kind="k0")
@@ -118,6 +131,15 @@ def run_section(tree, kind, tag, committed, nest, inner_op):
             a = add(tree, f"{tag}a")
             yield_point("w")
             add(a, f"{tag}b")
+        elif kind == "ends":
+            # one change at the front and one at the end of the tree: a snapshot that reads the tree in several
+            # critical sections shows one without the other
+            if isinstance(tree, TypedTree):
+                tree.add(f"{tag}a", kind=f"k-{tag}a", before=True)
+            else:
+                tree.add(f"{tag}a", before=True)
+            yield_point("w")
+            add(tree, f"{tag}z")
         elif kind == "rebuild":
             saved = tshape(tree)
             tree.clear()
@@ -311,7 +333,7 @@ def agrees(res, state):
 
 def run_program(program, schedule):
     """-> (violations list, info)"""
-    tree = base_tree(program.get("typed", False))
+    tree = base_tree(program.get("typed", False), program.get("big", 0))
     committed = [tshape(tree)]
     results = []
     S = Sched(schedule)
@@ -458,9 +480,120 @@ def run_real_special(case, rec):
         rec.fail(f"real-lock:{mode}:torn-snapshot:{op}", {"snapshot": out.get("res"), "committed": committed})
 
 
+class _Boom(Exception):
+    pass
+
+
+# ways in which a thread leaves the tree lock by an exception (the lock must be free afterwards)
+LEAVE_BY_EXCEPTION = ["with:KeyError(404)", "with:OSError(2,'x')", "with:ValueError()", "with:StopTraversal(5)", "with:SystemExit(3)", "with:nested",
+                      "copy_to:collision", "node.copy_to:collision", "save:mapper-raises", "to_dict_list:mapper-raises", "copy:predicate-raises",
+                      "filtered:predicate-raises", "to_dotfile:mapper-raises", "save:unwritable-path", "add(tree):collision"]
+
+
+def _leave_by_exception(tree, how):
+    """-> the exception that left the critical section / the snapshot operation"""
+    from nutree import StopTraversal
+
+    def boom(*a, **kw):
+        raise _Boom(17)
+
+    try:
+        if how.startswith("with:"):
+            what = how[5:]
+            if what == "nested":
+                with tree:
+                    with tree:
+                        raise KeyError(404)
+            exc = {"KeyError(404)": KeyError(404), "OSError(2,'x')": OSError(2, "x"), "ValueError()": ValueError(), "StopTraversal(5)": StopTraversal(5),
+                   "SystemExit(3)": SystemExit(3)}[what]
+            with tree:
+                raise exc
+        elif how == "copy_to:collision":
+            other = Tree("O")
+            other.add("base2")
+            tree.copy_to(other)
+        elif how == "node.copy_to:collision":
+            other = Tree("O")
+            other.add("b1a")
+            tree.first_child().copy_to(other, add_self=False)
+        elif how == "add(tree):collision":
+            other = Tree("O")
+            other.add("base2")
+            other.add(tree)
+        elif how == "save:mapper-raises":
+            tree.save(io.StringIO(), mapper=boom)
+        elif how == "to_dict_list:mapper-raises":
+            tree.to_dict_list(mapper=boom)
+        elif how == "copy:predicate-raises":
+            tree.copy(predicate=boom)
+        elif how == "filtered:predicate-raises":
+            tree.filtered(boom)
+        elif how == "to_dotfile:mapper-raises":
+            tree.to_dotfile(io.StringIO(), node_mapper=boom)
+        elif how == "save:unwritable-path":
+            tree.save("/nonexistent-dir-verif/x.nutree")
+    except BaseException as e:  # noqa: BLE001  (SystemExit is one of the ways)
+        return e
+    return None
+
+
+def run_after_exception(case, rec):
+    """A thread leaves `with tree:` (or a snapshot operation, which takes the lock internally) by an exception;
+    afterwards another thread must get the lock: its snapshot returns, with the one committed state."""
+    how, op = case["how"], case["op"]
+    rec.evals += 1
+    rec.nt(True)
+    rec.cls("mode=after-exception")
+    tree = Tree("T")
+    tree.add("base1").add("b1a")
+    tree.add("base2")
+    committed = tshape(tree)
+    out = {}
+
+    left = threading.Event()
+    finish = threading.Event()
+
+    def first():
+        out["exc"] = _leave_by_exception(tree, how)
+        left.set()
+        # stays alive while the second thread runs: a new thread may get the ident of a finished one, and an RLock
+        # that was never released would then take the newcomer for its owner
+        finish.wait(300)
+
+    def second():
+        try:
+            out["res"] = do_reader_op(tree, op)
+        except Exception as e:  # noqa: BLE001
+            out["err"] = e
+
+    t1 = threading.Thread(target=first, daemon=True)
+    t1.start()
+    left.wait(60)
+    if "exc" not in out:
+        rec.fail(f"real-lock:after-exception:first-thread-hangs:{how}", None)
+        rec.stop_shard = True
+        return
+    if out["exc"] is None:
+        rec.cls("no-exception:" + how)  # (the call is expected to raise; nothing to observe otherwise)
+    t2 = threading.Thread(target=second, daemon=True)
+    t2.start()
+    t2.join(60)
+    finish.set()
+    if t2.is_alive():
+        rec.fail(f"real-lock:lock-still-held-after:{how.split(':')[0]}-left-by-exception", {"how": how, "exception": repr(out["exc"])[:120], "then": op})
+        rec.stop_shard = True
+        return
+    if "err" in out:
+        rec.fail(f"real-lock:after-exception:snapshot-raised:{op}", repr(out["err"])[:200])
+    elif not agrees(out.get("res"), committed):
+        rec.fail(f"real-lock:after-exception:snapshot-differs:{op}", {"snapshot": out.get("res"), "committed": committed, "how": how})
+
+
 def run_real(case, rec):
     """The owner nests `with tree:` and calls every snapshot operation inside;
     a second thread started meanwhile must come back with a committed state."""
+    if case.get("mode") == "after-exception":
+        return run_after_exception(case, rec)
     if case.get("mode"):
         return run_real_special(case, rec)
     op = case["op"]
@@ -521,6 +654,13 @@ def enum_cases(tier):
             if tier == "quick" and kind == "rebuild" and op not in ("to_dict_list", "save", "copy_to_shallow"):
                 continue
             yield {"program": {"writers": [[{"kind": kind}]], "readers": [[op]]}, "limit": 4000 if tier == "quick" else 100000}
+    # a tree of several hundred nodes (operations without per-node callbacks: atomic for the scheduler unless the
+    # operation itself lets go of the lock in between)
+    for op in (["save", "copy", "copy_to_shallow"] if tier == "quick" else ["save", "save_path", "copy", "copy_to", "copy_to_shallow", "to_dotfile_path"]):
+        for big in ([300] if tier == "quick" else [130, 300, 700]):
+            yield {"program": {"big": big, "writers": [[{"kind": "ends"}]], "readers": [[op]]}, "limit": 400 if tier == "quick" else 20000}
+            if tier == "thorough":
+                yield {"program": {"big": big, "typed": True, "writers": [[{"kind": "ends"}]], "readers": [[op]]}, "limit": 20000}
     # typed trees: the writer introduces a kind that no committed node had before
     for op in (["save"] if tier == "quick" else READER_OPS):
         yield {"program": {"typed": True, "writers": [[{"kind": "pair"}]], "readers": [[op]]}, "limit": 4000 if tier == "quick" else 100000}
@@ -531,6 +671,9 @@ def enum_cases(tier):
 
 
 def real_cases(tier):
+    for i, how in enumerate(LEAVE_BY_EXCEPTION):
+        for op in ([["to_dict_list", "save", "with+iterate"][i % 3]] if tier == "quick" else ["to_dict_list", "save", "copy", "with+iterate", "copy_to"]):
+            yield {"mode": "after-exception", "how": how, "op": op}
     for op in (["to_dict_list", "save", "copy"] if tier == "quick" else READER_OPS):
         yield {"mode": "first-use", "op": op}
     for op in (["to_dict_list"] if tier == "quick" else ["to_dict_list", "save", "copy", "with+iterate"]):
